@@ -65,9 +65,9 @@ def main(tier, replay=None):
         open(impl, "w").write("".join(lines))
     else:
         d1 = os.path.join(c.workdir, "directed.txt")
-        rc, o, e = V.sh("timeout 280 %s -scenario 1 > %s" % (outs[0], d1), timeout=300)
+        rc, o, e = V.sh("(timeout 280 %s -scenario 1; timeout 280 %s -scenario 2) > %s" % (outs[0], outs[0], d1), timeout=600)
         if rc != 0:
-            return c.finish(TRUSTED, no_input_break="harness cmd/c07 -scenario 1 failed to run: " + (o + e)[-1500:])
+            return c.finish(TRUSTED, no_input_break="harness cmd/c07 -scenario 1/2 failed to run: " + (o + e)[-1500:])
         d2 = os.path.join(c.workdir, "random.txt")
         rc, o, e = V.sh([outs[0], "-n", str(n), "-long", str(nlong), "-out", d2, "-j", str(V.NCPU)], timeout=3000)
         stats = e.strip().splitlines()[-1] if e.strip() else ""
